@@ -202,13 +202,7 @@ theorem foldl_SameSC {k k' : Task} (evs : List Event) (h : SameSC k k') :
   | cons e es ih => simp only [List.foldl]; exact ih (stepTask_SameSC e h)
 
 theorem TaskOK_of_StepOK {now : Time} {R : Id → Prop} {k : Task} (h : StepOK now R k) (hi : TaskInv k) : TaskOK k := by
-  refine ⟨h.updated, ?_, h.claimTime, h.epicFixed, h.cStSet, h.titled, h.titleKept, h.created_pos⟩
-  intro hc
-  cases hE : k.isEpic
-  · have := (hi.2 hE).2
-    revert this hc
-    cases k.st <;> simp [docClaimOk, St.clearsClaim]
-  · exact (hi.1 hE).2
+  exact ⟨h.updated, h.claimTime, h.epicFixed, h.cStSet, h.titled, h.titleKept, h.created_pos⟩
 
 theorem StepOK_of_TaskOK {now : Time} {R : Id → Prop} {t : Task} (h : TaskOK t) (hle : ∀ x ∈ t.times, x ≤ now)
     (h0 : t.isEpic = true → t.lastEpic = 0) (hR : t.isEpic = false → R t.epicId)
